@@ -219,16 +219,77 @@ def guard_calls(guards):
     return out
 
 
-def origins(P, body, local, seen=None, payload=False):
-    """Leaves of the reaching-definition closure of a local: where can its value come from?
+def _field_path(pj):
+    """field names of a place projection (dereferences dropped); None if it has an index or something else"""
+    out = []
+    for e in pj:
+        if e == "d":
+            continue
+        if isinstance(e, dict) and ("n" in e or "f" in e) and "i" not in e:
+            out.append(e.get("n", e.get("f")))
+        else:
+            return None
+    return tuple(out)
+
+
+def origins(P, body, local, seen=None, payload=False, path=()):
+    """Leaves of the reaching-definition closure of a local (of the field `path` of it, if given): where can its value come from?
     Leaves: ('const', descr) | ('call', callee, arg descriptions, block) | ('param', name) | ('agg', adt, variant, [origins of operands])."""
     seen = seen if seen is not None else set()
-    if local in seen:
+    if len(path) > 4:
+        path = ()           # give up field sensitivity on very deep (cyclic) paths: the whole value
+    if (local, path) in seen:
         return set()
-    seen.add(local)
+    seen.add((local, path))
     if 1 <= local <= body["argc"]:
         return {("param", body["locals"][local].get("n"))}
     out = set()
+
+    def of_operand(o):
+        if o.get("k") in ("copy", "move"):
+            fp = _field_path(o["p"]["pj"])
+            return origins(P, body, o["p"]["l"], seen, path=(fp + path) if fp is not None else ())
+        return {("const", str(describe_operand(P, body, o))[:80])}
+    if path:
+        # field-sensitive: a struct literal contributes the operand of that field; `local.field = x` contributes x; other definitions the whole value
+        handled = False
+        for bi, blk in enumerate(body["blocks"]):
+            for s in blk["s"]:
+                if s["k"] == "assign" and s["p"]["l"] == local and s["p"]["pj"]:
+                    fp = _field_path(s["p"]["pj"])
+                    if fp is not None and fp[:1] == path[:1] and s["r"].get("k") == "use":
+                        out |= of_operand(s["r"]["o"]) if len(fp) >= len(path) else set()
+        for kind, bi, d in local_defs(body, local):
+            if kind == "stmt" and d["r"].get("k") == "agg" and d["r"].get("vn") and len(path) >= 2 and path[0] == d["r"]["vn"] and str(path[1]) in [str(f_) for f_ in d["r"].get("fields", [])]:
+                # enum variant literal read back through a downcast: `(x as Some).0` of `x = Some(v)` is v
+                o = d["r"]["ops"][[str(f_) for f_ in d["r"]["fields"]].index(str(path[1]))]
+                if o.get("k") in ("copy", "move"):
+                    fp = _field_path(o["p"]["pj"])
+                    out |= origins(P, body, o["p"]["l"], seen, path=(fp + path[2:]) if fp is not None else ())
+                else:
+                    out.add(("const", str(describe_operand(P, body, o))[:80]))
+                handled = True
+            elif kind == "stmt" and d["r"].get("k") == "agg" and d["r"].get("vn") and len(path) >= 1 and path[0] != d["r"]["vn"] and not d["r"].get("fields") and d["r"].get("ak") == "adt" and path[0] in ("Some", "None", "Ok", "Err"):
+                handled = True          # a different variant (e.g. `None`) has no such payload
+            elif kind == "stmt" and d["r"].get("k") == "agg" and d["r"].get("fields") and path[0] in d["r"]["fields"]:
+                o = d["r"]["ops"][d["r"]["fields"].index(path[0])]
+                if o.get("k") in ("copy", "move"):
+                    fp = _field_path(o["p"]["pj"])
+                    out |= origins(P, body, o["p"]["l"], seen, path=(fp + path[1:]) if fp is not None else ())
+                else:
+                    out.add(("const", str(describe_operand(P, body, o))[:80]))
+                handled = True
+            elif kind == "stmt" and d["r"].get("k") == "use" and d["r"]["o"].get("k") in ("copy", "move"):
+                fp = _field_path(d["r"]["o"]["p"]["pj"])
+                out |= origins(P, body, d["r"]["o"]["p"]["l"], seen, path=(fp + path) if fp is not None else ())
+                handled = True
+            else:
+                handled = False
+                break
+        else:
+            if handled or out:
+                return out
+        out = set()
     for kind, bi, d in local_defs(body, local):
         if kind == "call":
             f = d["f"]
@@ -244,11 +305,7 @@ def origins(P, body, local, seen=None, payload=False):
         r = d["r"]
         rk = r["k"]
         if rk == "use":
-            o = r["o"]
-            if o.get("k") in ("copy", "move"):
-                out |= origins(P, body, o["p"]["l"], seen)
-            else:
-                out.add(("const", str(describe_operand(P, body, o))[:80]))
+            out |= of_operand(r["o"])
         elif rk in ("ref", "cfd", "rawptr"):
             out |= origins(P, body, r["p"]["l"], seen)
         elif rk == "agg":
@@ -256,10 +313,7 @@ def origins(P, body, local, seen=None, payload=False):
                 out.add(("const", f"{r.get('adt', r['ak'])}::{r.get('vn')}"))
             else:
                 for o in r["ops"]:
-                    if o.get("k") in ("copy", "move"):
-                        out |= origins(P, body, o["p"]["l"], seen)
-                    else:
-                        out.add(("const", str(describe_operand(P, body, o))[:80]))
+                    out |= of_operand(o)
         elif rk == "cast":
             o = r["o"]
             if o.get("k") in ("copy", "move"):
